@@ -126,7 +126,7 @@ class ModelValue(object):
 
 def run_tlc(module, cfg=None, cfg_text=None, mode="check", workers=None, sim_num=None, sim_depth=None,
             env=None, timeout=600, coverage=True, on_emit=None, extra_files=None, seed=None,
-            constants=None, dfs=False, expect_error=False, emit_prefix='"@@'):
+            constants=None, dfs=False, expect_error=False, emit_prefix='"@@', on_line=None):
     """Run TLC on spec/<module>.tla with a config; stream-parse its output.
 
     cfg: name of a file in spec/ ; cfg_text: literal config (overrides cfg).
@@ -190,6 +190,8 @@ def run_tlc(module, cfg=None, cfg_text=None, mode="check", workers=None, sim_num
                             raise MachineryError("garbled emission line from TLC: %r" % line[:200])
                     continue
                 line = line.rstrip("\n")
+                if on_line is not None:
+                    on_line(line)
                 if len(res.log) < 4000:
                     res.log.append(line)
                 m = _RE_STATS.match(line)
